@@ -208,6 +208,15 @@ func TestC13(t *testing.T) {
 		case "reweight":
 			w := rapid.SampledFrom([]float64{0, math.Copysign(0, -1), -1, -0.5, -5e-324, math.Inf(-1), -1e300}).Draw(t, "w")
 			cl.logf("call Reweight(%v)", w)
+			if rapid.IntRange(0, 2).Draw(t, "storelevel") == 0 {
+				// the same refusal asked of the sketch's own stores (the sketch-level check never lets them see a bad factor)
+				for side, st := range map[string]store.Store{"positive": u.s.Pos(), "negative": u.s.Neg()} {
+					if err := st.Reweight(w); err == nil {
+						t.Fatalf("C13 %s: Reweight(%v) was accepted by the %s store", c, w, side)
+					}
+				}
+				cl.label("refused-reweight-store-level")
+			}
 			if err := u.s.Reweight(w); err == nil {
 				t.Fatalf("C13 %s: Reweight(%v) was accepted", c, w)
 			}
